@@ -5,6 +5,7 @@ import (
 	"encoding/base64"
 	"encoding/json"
 	"fmt"
+	"hash/fnv"
 	"net/http"
 	"net/http/httptest"
 	"os"
@@ -39,7 +40,6 @@ type group struct {
 	depth    int // queue_limits.max_depth of the frame (0 = default)
 	room     int // free room the frame wants before every request
 	added    int // messages stored (and cancelled again) on this instance
-	rot      int // rotates the representatives of the header classes
 }
 
 // representatives of the header classes (RFC 7230: a field name is a token; a field value has no control byte except tab)
@@ -285,7 +285,7 @@ func (g *group) scopeParts(scope string) (string, string) {
 	return p[0], p[1]
 }
 
-func (g *group) buildItem(fr Frame, kind string, prevIDs []string, dupq *int, nGiven *int) sentItem {
+func (g *group) buildItem(fr Frame, kind string, prevIDs []string, dupq *int, nGiven *int, rep int) sentItem {
 	rt := g.tab.Kinds[kind].GRoute
 	if fr.Path == "scoped" {
 		rt = g.tab.Scopes[fr.Scope]
@@ -369,14 +369,11 @@ func (g *group) buildItem(fr Frame, kind string, prevIDs []string, dupq *int, nG
 	case "headers_over":
 		headers = map[string]string{"X-Fill": strings.Repeat("h", mh-6+1)}
 	case "header_bad_name":
-		g.rot++
-		headers = map[string]string{badNameReps[g.rot%len(badNameReps)]: "v"}
+		headers = map[string]string{badNameReps[rep%len(badNameReps)]: "v"}
 	case "header_bad_value":
-		g.rot++
-		headers = map[string]string{"X-Ok": badValueReps[g.rot%len(badValueReps)]}
+		headers = map[string]string{"X-Ok": badValueReps[rep%len(badValueReps)]}
 	case "ok", "ok_t":
-		g.rot++
-		headers = okHeaderReps[g.rot%len(okHeaderReps)]
+		headers = okHeaderReps[rep%len(okHeaderReps)]
 	case "bad_recv":
 		f["received_at"] = "yesterday"
 	case "bad_next":
@@ -420,8 +417,13 @@ func (g *group) buildRequest(r Row) (string, map[string]string, []byte, []Want) 
 	var wants []Want
 	var prev []string
 	dupq, nGiven := 0, 0
-	for _, k := range kinds {
-		it := g.buildItem(fr, k, prev, &dupq, &nGiven)
+	// the representative of a header class is a function of the row and the position (re-execution picks the same one)
+	hh := fnv.New32a()
+	rowJSON, _ := json.Marshal(r)
+	hh.Write(rowJSON)
+	base := int(hh.Sum32() % 100003)
+	for i, k := range kinds {
+		it := g.buildItem(fr, k, prev, &dupq, &nGiven, base+i)
 		items = append(items, it.fields)
 		wants = append(wants, it.want)
 		if it.want.ID != "" {
